@@ -323,7 +323,7 @@ def literalEval (tok : Text) : Lit :=
   | c :: cs =>
     if isDigit c then
       match dropDigits cs with
-      | [] => if c == '0' && cs != [] then .bad else .int     -- leading zeros are a SyntaxError
+      | [] => if c == '0' && !(cs.all (· == '0')) then .bad else .int     -- `007` is a SyntaxError, `000` is 0
       | '.' :: r => if expOk (dropDigits r) then .float else .bad
       | r => if expOk r then .float else .bad
     else if c == '.' then
